@@ -133,6 +133,17 @@ def invLapZero (c : Cfg K) (h : Nat) : K :=
   let l := laplace c 2 h
   if HasIsZero.isZero l then 0 else 1 / l
 
+/-- `Poisson.step_fourier` at one mode: `-(where(op == 0, 0, 1/op)) · f̂` with `op = build_laplace_operator(order)` -/
+def poissonStep (c : Cfg K) (order : Nat) (h : Nat) (f : K) : K :=
+  let op := laplace c order h
+  let inv : K := if HasIsZero.isZero op then 0 else 1 / op
+  (-inv) * f
+
+/-- `derivative(u, L, order)` along axis `d` on one channel: `ifft((i s k_d)^order · fft(u))` -/
+def derivativeM (c : Cfg K) (order d : Nat) (u : Array K) : Array K :=
+  let uh := rfftnM c.D c.N u
+  irfftnM c.D c.N (tab (modes c) (fun h => npow (deriv c d h) order * uh.getD h 0))
+
 /-- `VorticityConvection2d` (+ Kolmogorov injection `(mode, scale)` when given) -/
 def vorticity2d (c : Cfg K) (scale : K) (inj : Option (Nat × K)) (uh : MC K) : MC K :=
   let G := gridSize c
